@@ -936,6 +936,38 @@ func (x *c18) cyclicReferences(worlds map[gmsl.RoomVersion]*world) {
 	}
 }
 
+// eventAsJSONString: request bodies in which the member that should be an event object is a JSON string whose text
+// is the hostile part. The body itself is valid JSON of depth one, so nothing the enclosing decode does limits what is
+// inside the string; a reader that unescapes the string and parses the text as an event meets it unprotected.
+func (x *c18) eventAsJSONString(worlds map[gmsl.RoomVersion]*world) {
+	if x.c.Shard != 0 {
+		return
+	}
+	w := worlds["10"]
+	if w == nil {
+		return
+	}
+	texts := map[string]string{
+		"valid-event-text":   string(w.members[[2]string{authUsers[2], "invite"}].JSON()),
+		"nested-60000-deep":  strings.Repeat(`{"a":`, 60000) + "1" + strings.Repeat("}", 60000),
+		"arrays-200000-deep": strings.Repeat("[", 200000) + strings.Repeat("]", 200000),
+		"not-json":           `{"type","type":"m.room.member"`,
+	}
+	for name, text := range texts {
+		quoted, _ := json.Marshal(text)
+		body := []byte(`{"room_version":"10","invite_room_state":[],"event":` + string(quoted) + `}`)
+		x.c.Case("event-as-json-string:invite-v2:"+name, map[string]any{"event_member": "a JSON string", "text_bytes": len(text), "kind": name}, func() {
+			x.c.Nontrivial("event-as-string|" + name)
+			x.step("InviteV2Request("+name+")", func() {
+				var req fclient.InviteV2Request
+				if err := json.Unmarshal(body, &req); err == nil && req.Event() != nil {
+					x.exercise(req.Event(), w, "invite-v2-event-as-string")
+				}
+			})
+		})
+	}
+}
+
 func runC18(c *mon.Ctx) {
 	versions := sortedVersions()
 	r := c.Rand("inputs")
@@ -949,6 +981,7 @@ func runC18(c *mon.Ctx) {
 	x := &c18{c: c}
 	x.keyLengthCases(worlds)
 	x.cyclicReferences(worlds)
+	x.eventAsJSONString(worlds)
 	x.fieldEnumeration(r, versions, worlds)
 	x.byteMutation(r, versions, worlds, c.Scale(16000, 1600000), c.Scale(16000, 1600000))
 	c.Floor("field_cases_accepted_by_a_parser", 1000)
